@@ -866,6 +866,12 @@ def enip_srv_tcp( conn, addr, name, enip_process, delay=None, **kwds ):
             # (unless a later connection from the same peer address has already replaced it).
             if connections.get( connkey ) is stats:
                 connections.pop( connkey, None )
+            # However the session ended (EOF inside a frame, a failed or refused request, the server
+            # ending it): let the processor release what it holds for the peer (eg. Forward Opens).
+            try:
+                enip_process( addr, data=dotdict() )
+            except Exception as exc:
+                log.detail( "%s session clean-up failed: %s", name, exc )
             log.normal( "%s done; processed %3d request%s over %5d byte%s/%5d received (%d connections remain)", name,
                         stats.requests,  " " if stats.requests == 1  else "s",
                         stats.processed, " " if stats.processed == 1 else "s", stats.received,
